@@ -300,18 +300,25 @@ def solution_roundtrips(ctx, stop_first=False):
         bad = diff_device(sol.device, back.device)
         if bad:
             fail("solution-device", f"device stored in the solution differs after reload: {bad[:4]}")
-        # data at every recorded step
+        # data at every recorded step (walked forwards and then backwards on the same two Solution objects), also against
+        # the datasets of that step as they are in the file
         lo, hi = sol.data_range
-        for step in range(lo, hi + 1):
+        raw_frames = {fr["index"]: fr for fr in runs.parse_h5(sol.path)[0]}
+        for step in list(range(lo, hi + 1)) + list(range(hi - 1, lo - 1, -1)):
             sol.solve_step = step
             back.solve_step = step
             da, db = sol.tdgl_data, back.tdgl_data
+            for nm_, arr_ in raw_frames[step]["data"].items():
+                if hasattr(da, nm_) and not arr_eq(getattr(da, nm_), arr_):
+                    fail("solution-data-vs-file", f"after switching to step {step}, tdgl_data.{nm_} is not the dataset stored for that step", step=step, field=nm_)
             for f in dataclasses.fields(da):
                 va, vb = getattr(da, f.name), getattr(db, f.name)
                 same = (va == vb) if isinstance(va, dict) or np.isscalar(va) else arr_eq(va, vb)
                 if not same:
                     fail("solution-data", f"step {step}: field {f.name} differs after reload", step=step, field=f.name)
             ctx.count("steps_compared")
+        sol.solve_step = hi  # leave both objects at the last recorded step (what a freshly loaded solution shows)
+        back.solve_step = hi
         if not (sol.dynamics == back.dynamics) or not arr_eq(sol.dynamics.dt, back.dynamics.dt):
             fail("solution-dynamics", "dynamics differ after reload")
         if not arr_eq(sol.times, back.times):
